@@ -1166,3 +1166,14 @@ V("C06", "quartic-r3-sign-of-R", THC, "        *r3 = -0.25*a3 - 0.5*R - 0.5*E;",
 V("C06", "quartic-R-zero-branch-factor", THC, "        foo2 = 2.0 * sqrt(u1*u1 - 4.0*a0);", "        foo2 = sqrt(u1*u1 - 4.0*a0);", "C06-R8", "quartic_equation_solve_exact")
 V("C06", "quartic-takes-middle-resolvent-root", THC, "    else u1 = (x1>x3) ? x1 : x3;", "    else u1 = (x1>x3) ? x1 : 0.5*(x1 + x3);", "C06-R8", "quartic_equation_solve_exact")
 V("C06", "twin-quartic-resolvent-root-x2", THC, "    else u1 = (x1>x3) ? x1 : x3;", "    else u1 = (x1>x3) ? x1 : x3;  /* any real root of the resolvent works */", None)
+THP = "mdtraj/geometry/thermodynamic_properties.py"
+_VOL_OLD = "    volume_trace = traj.unitcell_volumes\n    densities = mass / volume_trace\n"
+_VOL_NEW = ("    lengths = traj.unitcell_lengths.astype(np.float64)\n    cosines = np.cos(np.radians(traj.unitcell_angles.astype(np.float64)))\n"
+            "    volume_trace = lengths.prod(axis=1) * np.sqrt(1.0 - (cosines**2).sum(axis=1) + %s cosines.prod(axis=1))\n    densities = mass / volume_trace\n")
+V("C16", "density-volume-formula-misses-factor-two", THP, _VOL_OLD, _VOL_NEW % "", "C16-R6", "density")
+V("C16", "twin-density-volume-from-lengths-and-angles", THP, _VOL_OLD, _VOL_NEW % "2.0 *", None)
+V("C10", "face-test-uses-other-axis-length", NLC, "centerAtomPos[2] > periodicBoxSize[2]-maxDistance", "centerAtomPos[2] > periodicBoxSize[1]-maxDistance", "C10-R5", "Voxels::getNeighbors")
+V("C10", "triclinic-flag-misses-cy", NBC, "box_matrix[3] != 0 || box_matrix[5] != 0 || box_matrix[6] != 0 || box_matrix[7] != 0);", "box_matrix[3] != 0 || box_matrix[5] != 0 || box_matrix[6] != 0);", "C10-R1", "_compute_neighbors")
+V("C10", "twin-triclinic-flag-by-loop", NBC, "    bool triclinic = periodic && (box_matrix[1] != 0 || box_matrix[2] != 0 ||\n            box_matrix[3] != 0 || box_matrix[5] != 0 || box_matrix[6] != 0 || box_matrix[7] != 0);",
+  "    bool triclinic = false;\n    for (int k = 1; periodic && k < 8; k++)\n        if (k != 4 && box_matrix[k] != 0)\n            triclinic = true;", None)
+V("C16", "contacts-ca-drops-periodic", "mdtraj/geometry/contact.py", "        distances = md.compute_distances(traj, atom_pairs, periodic=periodic)\n", "        distances = md.compute_distances(traj, atom_pairs)\n", "C16-R5", "compute_contacts", count="all")
